@@ -283,6 +283,11 @@ func (fs *FS) Rename(oldname, newname string) error {
 			return &hackpadfs.LinkError{Op: "rename", Old: oldname, New: newname, Err: hackpadfs.ErrNotDir}
 		}
 	}
+	newFile, newErr := fs.getFile(newname)
+	if newErr == nil && newFile.Mode().IsDir() {
+		// a directory is never replaced, not even an empty one (matches os.Rename)
+		return &hackpadfs.LinkError{Op: "rename", Old: oldname, New: newname, Err: hackpadfs.ErrExist}
+	}
 	if !oldInfo.IsDir() {
 		if oldname == newname {
 			return nil
@@ -306,9 +311,12 @@ func (fs *FS) Rename(oldname, newname string) error {
 		return err
 	}
 
-	_, err = fs.getFile(newname)
-	if !errors.Is(err, hackpadfs.ErrNotExist) {
-		return &hackpadfs.LinkError{Op: "rename", Old: oldname, New: newname, Err: hackpadfs.ErrExist}
+	if newErr == nil {
+		// a directory cannot replace a regular file
+		return &hackpadfs.LinkError{Op: "rename", Old: oldname, New: newname, Err: hackpadfs.ErrNotDir}
+	}
+	if !errors.Is(newErr, hackpadfs.ErrNotExist) {
+		return &hackpadfs.LinkError{Op: "rename", Old: oldname, New: newname, Err: newErr}
 	}
 
 	files, err := oldFile.ReadDirNames()
